@@ -131,6 +131,21 @@ def check_dense(np, sparse, layout):
         shift = lp - d
         if np.abs(shift - shift[:, :1]).max() > 1e-9:
             bad.append(('shift-by-row-constant', 'log-probabilities differ from the dense logits by more than a per-row constant'))
+    # engine output is float32 and un-normalised: frames of very different magnitude on one line (a confident frame next to a fully
+    # pruned one or to one whose scores are all strongly negative); each row must still be normalised on its own
+    wide = [np.array([[36.0, 2.0, 1.0], [0.0, 0.0, 0.0], [-70.0, -71.0, -75.0], [1.0, 30.0, 2.0]]),
+            np.array([[90.0, 1.0, 2.0], [0.0, 0.0, 0.0], [-60.0, 0.0, 0.0]]),
+            np.array([[0.0, 0.0, 0.0], [50.0, 49.0, 0.0]])]
+    for w in wide:
+        for dt in (np.float32, np.float64):
+            n += 1
+            line = layout.TextLine(id='l', logits=sparse.csc_matrix(w.astype(dt)), characters=['a', 'b', '~'])
+            with np.errstate(all='ignore'):
+                lp = np.asarray(line.get_full_logprobs(), dtype=np.float64)
+                mass = np.logaddexp.reduce(lp, axis=1)
+            if lp.shape != w.shape or not np.all(np.isfinite(lp)) or np.abs(mass).max() > 1e-4:
+                bad.append(('rows-normalised', 'frames of very different magnitude (%s): log-mass of the rows of get_full_logprobs = %r'
+                            % (np.dtype(dt).name, mass.tolist())))
     return n, bad
 
 
